@@ -232,7 +232,7 @@ PROPS = {
          " Key-file states also: empty, white space only, comment only. Scripted handlers include one whose Name() panics after a successful authentication. CA kinds realdown / realdead put the real crypki.Signer (closed port; live or already cancelled context) behind Run. Verdicts are the clause predicates of Spec/Gensign.lean on the implementation's own trace (tags Cnn.<clause>)."
          ' Key-identifier maps also with numbers written with leading zeros; a key whose CSRs() panics.',
     trusted_base=['signature verification, key generation and crypto/rand are real in the run and oracles in the model (honest-signer law built into `verifies`)', 'x/crypto agent client/server and keyring', 'mapstructure decoding of the handler configuration (the algorithm-name hook is modelled in the driver)'],
-    assumptions=['unforgeability and unpredictability of the challenge are assumptions (partial): the model pins which verification gates everything'],
+    assumptions=['unforgeability and unpredictability of the challenge are assumptions (partial): the model pins which verification gates everything', 'a challenge counts as unpredictable when it carries at least 128 bits from the random source and differs from every earlier one (the statement does not fix its length)'],
  ),
  'C02': dict(
     group='gensign', only=['gs'], ops=['gs'],
